@@ -242,8 +242,8 @@ bool World::next_phase() {
 			if (mode == "ledger") {
 				for (auto &cl : clients) {
 					if (cl.no_expect || cl.faulty || cl.closing || cl.daemon_closed || cl.policy.getb("maydrop")) continue;
-					for (auto &kv : cl.ledger) if (kv.second > 0)
-						violation("C02", "missing-response", "request id " + kv.first.substr(1) + " on c" + std::to_string(cl.idx) + " was never answered although the connection stayed open and every deadline has passed");
+					for (auto &kv : cl.ledger) if (kv.second > 0 && !(fault_turn >= 0 && cl.ledger_turn[kv.first] <= fault_turn))
+						violation(plan.hdr.gets("ledgerprop", "C02"), "missing-response", "request id " + kv.first.substr(1) + " on c" + std::to_string(cl.idx) + " was never answered although the connection stayed open and every deadline has passed");
 				}
 			}
 			if (mode == "exact") model.check_deadlines(now, true);
@@ -276,6 +276,7 @@ bool World::next_phase() {
 			Client &cc = clients.back();
 			if (!l) { violation(plan.hdr.gets("canary_prop", "C11"), "daemon-not-accepting", "no listening endpoint is registered any more"); }
 			cc.connected = true; l->backlog.push_back(cc.idx); g_kernel.mark_pending(*l);
+			canary_turn = (long)res.st.batches;
 			std::string all;
 			if (cc.od.ws) all += ws_handshake(plan.hdr.gets("target", "/api/jet/"), "Y2FuYXJ5Y2FuYXJ5Y2FuYQ==");
 			auto enc = [&](const std::string &s) { return cc.od.ws ? ws_frame(1, s, true, true, 0xA1B2C3D4) : raw_frame(s); };
@@ -290,6 +291,13 @@ bool World::next_phase() {
 		case 3: {
 			// evaluate the canary
 			Client *cn = nullptr; for (auto &c : clients) if (c.is_canary) cn = &c;
+			if (cn && fault_turn >= canary_turn && canary_turn >= 0) {
+				// the injected fault hit the canary's own requests: what it shows is the fault, not the daemon's ability to serve
+				probe("canary_hit_by_fault");
+				phase = 4;
+				if (!cn->client_closed) { cn->client_closed = true; cn->eof = true; KFd *kk = g_kernel.get(cn->fd); if (kk) g_kernel.mark_pending(*kk); return false; }
+				continue;
+			}
 			if (cn) {
 				std::vector<Frame> fr; OutDec d; d.ws = cn->od.ws; d.feed(cn->out.data(), cn->out.size(), fr);
 				std::vector<std::string> seen;
@@ -394,6 +402,8 @@ void World::setup_from_header() {
 	wsstrict = h.getb("wsstrict");
 	step_cap = (uint64_t)h.getd("step_cap", 200000);
 	const JV *af = h.get("allocfail"); if (af && af->t == JV::Arr) for (auto &x : af->a) g_arena.fail_at.insert((uint64_t)x.d);
+	const JV *sa = h.get("alloc_stack_at"); if (sa && sa->t == JV::Arr) for (auto &x : sa->a) g_arena.stack_at.insert((uint64_t)x.d);
+	if (debug && af && af->t == JV::Arr) for (auto &x : af->a) g_arena.stack_at.insert((uint64_t)x.d);
 	const JV *te = h.get("timerfd_errs"); if (te && te->t == JV::Arr) for (auto &x : te->a) g_kernel.timerfd_create_errs.push_back((int)x.d);
 	g_kernel.fs_fault_at = (int)h.getd("fs_fault_at", -1); g_kernel.fs_fault_kind = h.gets("fs_fault_kind"); g_kernel.fs_fault_arg = (long)h.getd("fs_fault_arg", 0);
 	model.host = this; model.max_matchers = g_variant.max_matchers; model.add_local_only = g_variant.add_local_only; model.default_timeout_s = g_variant.routed_timeout;
